@@ -52,10 +52,13 @@ var c03Methods = []string{"GET", "GET", "POST", "POST", "PUT", "DELETE", "PATCH"
 
 var c03Hosts = []string{"svc.example.com", "api.test:8080", "10.1.2.3:80"}
 
-func c03Body(rng *rand.Rand, n int, compressible bool) []byte {
+// c03Body: a compressible body names its owner (exchange id and direction) in every
+// record, so that bytes of another exchange are recognisable in it; the other kind is
+// random bytes.
+func c03Body(rng *rand.Rand, n int, compressible bool, owner string) []byte {
 	b := make([]byte, n)
 	if compressible {
-		pat := []byte(fmt.Sprintf("lorem ipsum %d dolor sit amet; ", rng.Intn(1000)))
+		pat := []byte(fmt.Sprintf("lorem ipsum %d dolor sit amet [%s]; ", rng.Intn(1000), owner))
 		for i := range b {
 			b[i] = pat[i%len(pat)]
 		}
@@ -229,7 +232,7 @@ func c03Gen(cfg *e2eCfg, rng *rand.Rand, id string, last bool) *c03Ex {
 	}
 	q.Framing = "none"
 	if hasBody {
-		ex.ReqPlain = c03Body(rng, c03Sizes(cfg, rng), rng.Intn(2) == 0)
+		ex.ReqPlain = c03Body(rng, c03Sizes(cfg, rng), rng.Intn(2) == 0, id+"/req")
 		q.Body = ex.ReqPlain
 		if rng.Intn(3) == 0 || (cfg.ReqAd != nil && cfg.ReqAd.Decompress && rng.Intn(2) == 0) {
 			ex.ReqGzip = true
@@ -278,7 +281,7 @@ func c03Gen(cfg *e2eCfg, rng *rand.Rand, id string, last bool) *c03Ex {
 	}
 	sc.Mode = "cl"
 	if sc.Status != 204 {
-		ex.RespPlain = c03Body(rng, c03Sizes(cfg, rng), rng.Intn(3) != 0)
+		ex.RespPlain = c03Body(rng, c03Sizes(cfg, rng), rng.Intn(3) != 0, id+"/resp")
 		sc.Body = ex.RespPlain
 		if rng.Intn(4) == 0 {
 			ex.RespGzip = true
@@ -429,6 +432,7 @@ func c03RespTrigger(cfg *e2eCfg, ex *c03Ex) string {
 type c03Finding struct {
 	Sig    string
 	Detail map[string]interface{}
+	Check  string // the check that failed (the middle part of Sig)
 }
 
 // c03Dedupe keeps the kit's bounded violation list from being filled by repetitions: a
@@ -486,7 +490,7 @@ func c03Check(cfg *e2eCfg, ex *c03Ex, res *e2eResult, seen *e2eSeen) (out []c03F
 		return d
 	}
 	bad := func(check, trig string, extra map[string]interface{}) {
-		out = append(out, c03Finding{c03Sig(check, trig), detail(extra)})
+		out = append(out, c03Finding{c03Sig(check, trig), detail(extra), check})
 	}
 
 	// 1. framing of what the client received (always)
@@ -502,8 +506,9 @@ func c03Check(cfg *e2eCfg, ex *c03Ex, res *e2eResult, seen *e2eSeen) (out []c03F
 	if seen == nil {
 		bad("backend-not-contacted", pathTrig, nil)
 	} else {
-		if seen.N != 1 {
-			bad("backend-contacted-more-than-once", "", nil)
+		if seen.N != 1+ex.Script.FailFirst {
+			// (FailFirst > 0 only with a Retry policy: one more contact per failed attempt)
+			bad("backend-contacted-more-than-once", "", map[string]interface{}{"wantContacts": 1 + ex.Script.FailFirst})
 		}
 		if seen.Method != ex.Req.Method {
 			bad("req-method", "", nil)
@@ -582,8 +587,18 @@ func c03Check(cfg *e2eCfg, ex *c03Ex, res *e2eResult, seen *e2eSeen) (out []c03F
 		if seen.BodyErr != "" {
 			bad("req-body:backend-read-error", "", nil)
 		} else if cfg.ReqAd == nil {
-			if !bytes.Equal(seen.Body, ex.Req.Body) {
-				bad("req-body:bytes-differ", "", map[string]interface{}{"want": e2eBrief(ex.Req.Body), "got": e2eBrief(seen.Body)})
+			// every attempt the backend received (more than one with a Retry policy)
+			for a, got := range seen.Bodies {
+				if seen.BodyErrs[a] == "" && bytes.Equal(got, ex.Req.Body) {
+					continue
+				}
+				what := "req-body:bytes-differ"
+				if a > 0 {
+					what = "req-body:bytes-differ-on-repeated-attempt"
+				}
+				bad(what, "", map[string]interface{}{"want": e2eBrief(ex.Req.Body), "got": e2eBrief(got), "attempt": a + 1, "attempts": len(seen.Bodies),
+					"readError": seen.BodyErrs[a], "diff": e2eBodyDiff(ex.Req.Body, got)})
+				break
 			}
 		} else {
 			want := ex.ReqPlain
@@ -870,11 +885,11 @@ func TestVerif_C03_Exchange(t *testing.T) {
 	c03Requires(r)
 }
 
-func c03Run(r *kit.Run, dd *c03Dedupe, be *e2eBackend, gw *e2eGateway, cl *e2eClient, cfg *e2eCfg, ex *c03Ex) {
+func c03Run(r *kit.Run, dd *c03Dedupe, be *e2eBackend, gw *e2eGateway, cl *e2eClient, cfg *e2eCfg, ex *c03Ex) (seen *e2eSeen) {
 	sc := ex.Script
 	be.Script(ex.ID, &sc)
 	res := cl.Do(&ex.Req, func() bool { return be.Contacted(ex.ID) })
-	seen := be.Take(ex.ID)
+	seen = be.Take(ex.ID)
 	r.Eval(1)
 	finds, cover, inc := c03Check(cfg, ex, res, seen)
 	for _, entry := range gw.errlog.TakePanics(res.Addrs) {
@@ -882,17 +897,18 @@ func c03Run(r *kit.Run, dd *c03Dedupe, be *e2eBackend, gw *e2eGateway, cl *e2eCl
 		site, msg := e2ePanicSig(entry)
 		r.Count("handler_panics", 1)
 		finds = append(finds, c03Finding{c03Sig("handler-panic:"+site+":"+msg, c03RespTrigger(cfg, ex)),
-			map[string]interface{}{"cfg": cfg, "exchange": ex, "serverLog": c03ClipN(entry, 3000)}})
+			map[string]interface{}{"cfg": cfg, "exchange": ex, "serverLog": c03ClipN(entry, 3000)}, "handler-panic:" + site + ":" + msg})
 	}
 	if inc != "" {
 		r.Inconclusive(inc)
-		return
+		return seen
 	}
 	r.Cover(cover)
 	c03Observe(r, cfg, ex, res, seen)
 	for _, f := range finds {
 		dd.record(r, f)
 	}
+	return seen
 }
 
 // c03Leftover reports handler panics that no exchange accounted for.
@@ -914,15 +930,40 @@ func c03Requires(r *kit.Run) {
 	}
 }
 
+// c03FailStatus is the status the backend fails first attempts with in the retry cases of
+// the concurrent part (listed in the pool's failureCodes; not in the alphabet of scripted
+// statuses).
+const c03FailStatus = 502
+
+// c03Overlapify makes an exchange of a retry case stay in forwarding for a while: most
+// bodies become chunked, and the backend fails the first 0..2 attempts (failure status or
+// dropped connection), so that the gateway sends the request again after a back-off.
+func c03Overlapify(ex *c03Ex, rng *rand.Rand) {
+	q := &ex.Req
+	if q.Framing == "cl" && rng.Intn(4) != 0 {
+		q.Framing = "chunked"
+		q.Chunk = []int{7, 100, 4096, 70000}[rng.Intn(4)]
+		if len(q.Body) > 100000 && q.Chunk < 100 {
+			q.Chunk = 4096
+		}
+	}
+	ex.Script.FailFirst = []int{0, 0, 1, 1, 2}[rng.Intn(5)]
+	ex.Script.FailStatus = []int{c03FailStatus, c03FailStatus, 0}[rng.Intn(3)]
+	ex.Script.RespDelayMs = rng.Intn(4)
+}
+
 // TestVerif_C03_Concurrent: the same oracle with 8 raw clients hammering one gateway at
-// the same time (race detector on).
+// the same time (race detector on).  Even cases: the pool has a Retry policy and the
+// backend fails first attempts, so requests are still being forwarded (waiting for their
+// next attempt) while the other clients' requests are read; odd cases: a backend that is
+// slow to read and to answer.
 func TestVerif_C03_Concurrent(t *testing.T) {
 	r := kit.Start(t, "C03")
 	defer r.Finish()
 	if e2eNotReplayed(r) {
 		return
 	}
-	r.Rule(c03Rule + " || concurrent part: 8 clients x one gateway, each client its own kept-alive connection")
+	r.Rule(c03Rule + " || concurrent part: 8 clients x one gateway, each client its own kept-alive connection; compressible bodies carry the exchange id in every record. Even cases: buffered requests, no RequestAdaptor, 3 of 4 length-declared bodies turned into chunked ones, pool with Retry policy (3 attempts, wait 8-22 ms) + failureCodes [502], the backend fails the first 0/1/2 attempts with 502 or a dropped connection: every attempt's body must be the client's bytes and the client gets the last attempt's response. Odd cases: a third of the exchanges meet a backend that waits 0-8 ms before reading the body and 0-10 ms before answering")
 	be, err := e2eNewBackend()
 	if err != nil {
 		r.Inconclusive("cannot start backend: " + err.Error())
@@ -937,7 +978,15 @@ func TestVerif_C03_Concurrent(t *testing.T) {
 		if !r.Mine(i) {
 			continue
 		}
-		cfg := c03Cfg(i*3+1, r.CaseRand(i))
+		crng := r.CaseRand(i)
+		cfg := c03Cfg(i*3+1, crng)
+		retry := (i/2)%2 == 0 // (i/2: both shards of the quick tier get both kinds)
+		if retry {
+			cfg.Retry = &e2eRetry{MaxAttempts: 3, WaitMs: 8 + crng.Intn(15), Random: 0.5}
+			cfg.FailureCodes = []int{c03FailStatus}
+			cfg.ServerClientMax = 0 // (a streamed request cannot be sent twice)
+			cfg.ReqAd = nil
+		}
 		r.Case(i, map[string]interface{}{"cfg": cfg, "workers": workers, "perWorker": perWorker})
 		gw, err := e2eStart(cfg, be)
 		if err != nil {
@@ -954,8 +1003,20 @@ func TestVerif_C03_Concurrent(t *testing.T) {
 				defer cl.Close()
 				for k := 0; k < perWorker; k++ {
 					ex := c03Gen(cfg, rng, fmt.Sprintf("c03c-%d-%d-%d-%d", r.Seed(), i, w, k), k == perWorker-1)
-					c03Run(r, dd, be, gw, cl, cfg, ex)
+					if retry {
+						c03Overlapify(ex, rng)
+					} else if rng.Intn(3) == 0 {
+						ex.Script.ReadDelayMs, ex.Script.RespDelayMs = rng.Intn(9), rng.Intn(11)
+						r.Count("concurrent_slow_backend_exchanges", 1)
+					}
+					seen := c03Run(r, dd, be, gw, cl, cfg, ex)
 					r.Count("concurrent_exchanges", 1)
+					if seen != nil && len(seen.Bodies) > 1 {
+						r.Count("concurrent_resent_after_backoff", 1)
+						if ex.Req.Framing == "chunked" && len(ex.Req.Body) > 0 {
+							r.Count("concurrent_chunked_body_resent_after_backoff", 1)
+						}
+					}
 				}
 			}(w)
 		}
@@ -965,6 +1026,9 @@ func TestVerif_C03_Concurrent(t *testing.T) {
 		be.CloseIdle()
 	}
 	r.Require("concurrent_exchanges", 1)
+	r.Require("concurrent_resent_after_backoff", 1)
+	r.Require("concurrent_chunked_body_resent_after_backoff", 1)
+	r.Require("concurrent_slow_backend_exchanges", 1)
 	r.Require("status_relayed", 1)
 }
 
